@@ -153,7 +153,7 @@ def _accept_shard(module, cfg, events, idx, consts_env, timeout):
     with open(path, "w") as fh:
         for e in events:
             fh.write(json.dumps(e, separators=(",", ":")) + "\n")
-    env = {"TRACE_FILE": path}
+    env = {"TRACE_FILE": path, "VERIF_PROP": ""}
     env.update(consts_env or {})
     res = _run_tlc(module, cfg, env=env, workers=1, extra=["-continue"], timeout=timeout)
     out = res["out"]
